@@ -505,6 +505,170 @@ func drawMarathon(t *rapid.T, maxOps int) *Case {
 		}
 		c.Ops = append(c.Ops, o)
 	}
+	// one or two entries far bigger than all the small ones together may push
+	// out more than a thousand entries in a single Put
+	for i, nbig := 0, rapid.IntRange(0, 2).Draw(t, "nbig"); i < nbig; i++ {
+		at := rapid.IntRange(len(c.Ops)/2, len(c.Ops)-1).Draw(t, "bigat")
+		c.Ops[at] = Op{Put: true, Key: base + uint64(rapid.IntRange(0, nkeys-1).Draw(t, "bigkey")), Shape: rapid.SampledFrom([]int{ShLarge, ShManyRuns, ShRuns}).Draw(t, "bigshape")}
+	}
+	return c
+}
+
+// ---------------------------------------------------------------- turnover: tens of thousands of evictions on one cache
+
+// TurnCase: a small cache is overrun by N distinct keys, one Put each (plus a
+// Get of a recent key now and then).  The oracle is cheap on purpose: at
+// check points and at the end every key ever stored is looked up - what is
+// retrievable must be the most recently used keys, a suffix of the use order,
+// within the byte bound, and with the right content.
+type TurnCase struct {
+	Cap   uint64
+	N     int
+	Shape int
+	Every int // a Get of the key stored Every/2 Puts ago, every Every Puts (0 = never)
+	// Big > 0: at the end ONE bitmap of Big full 8 KiB containers is stored (an
+	// avalanche: a single Put that has to push out very many entries)
+	Big int
+}
+
+func (c *TurnCase) Summary() string {
+	return fmt.Sprintf("turnover: cap=%d, %d distinct keys stored once each (%s), Get of a recent key every %d Puts, final Put of %d x 8 KiB", c.Cap, c.N, shapeName[c.Shape], c.Every, c.Big)
+}
+
+func turnOracle(c *TurnCase) (evictions int, err error) {
+	err = fix.Safe(func() error {
+		var cn counters
+		cache := newCache(c.Cap, &cn)
+		lastUse := make([]int, c.N) // key index -> step of last use
+		clock := 0
+		check := func(upto int, label string) error {
+			// probing changes recency, so it is done on keys in DEcreasing
+			// recency... simpler: probe in increasing recency order, which keeps
+			// the relative order of everything that is a hit
+			order := make([]int, upto)
+			for i := range order {
+				order[i] = i
+			}
+			sort.Slice(order, func(a, b int) bool { return lastUse[order[a]] < lastUse[order[b]] })
+			var total uint64
+			firstHit := -1
+			for pos, ki := range order {
+				got, ok := cache.Get(uint64(1000 + ki))
+				if !ok {
+					if firstHit >= 0 {
+						return fmt.Errorf("%s: key #%d (last used at step %d) is gone while key #%d, used earlier (step %d), is still retrievable - not least-recently-used order after %d evictions", label, ki, lastUse[ki], order[firstHit], lastUse[order[firstHit]], evictions)
+					}
+					continue
+				}
+				if firstHit < 0 {
+					firstHit = pos
+				}
+				if !got.Equals(mk(c.Shape, ki)) {
+					return fmt.Errorf("%s: key #%d returns a bitmap other than the one stored under it", label, ki)
+				}
+				total += got.GetSizeInBytes()
+				clock++
+				lastUse[ki] = clock
+			}
+			if total > c.Cap {
+				return fmt.Errorf("%s: retrievable bitmaps sum to %d bytes > capacity %d", label, total, c.Cap)
+			}
+			if firstHit >= 0 {
+				evictions = firstHit
+			} else {
+				evictions = upto
+			}
+			return nil
+		}
+		for i := 0; i < c.N; i++ {
+			clock++
+			cache.Put(uint64(1000+i), mk(c.Shape, i))
+			lastUse[i] = clock
+			if c.Every > 0 && i%c.Every == c.Every-1 {
+				k := i - c.Every/2
+				if _, ok := cache.Get(uint64(1000 + k)); ok {
+					clock++
+					lastUse[k] = clock
+				}
+			}
+			if i == 65535 || i == 65536 || i == 65537 || i == c.N/2 {
+				if err := check(i+1, fmt.Sprintf("after %d Puts", i+1)); err != nil {
+					return err
+				}
+			}
+		}
+		if err := check(c.N, fmt.Sprintf("after all %d Puts", c.N)); err != nil {
+			return err
+		}
+		if c.Big > 0 {
+			big := roaring.New()
+			for ch := uint32(0); ch < uint32(c.Big); ch++ {
+				for i := uint32(0); i < 65536; i += 2 {
+					big.Add(ch<<16 | i)
+				}
+			}
+			cache.Put(7, big)
+			var bigSize uint64
+			got, ok := cache.Get(7)
+			if ok {
+				if !got.Equals(big) {
+					return fmt.Errorf("the big entry returns another bitmap")
+				}
+				bigSize = got.GetSizeInBytes()
+			} else if big.GetSizeInBytes()+slack <= c.Cap {
+				return fmt.Errorf("the big entry (%d bytes) fits capacity %d but is not retrievable right after it was stored", big.GetSizeInBytes(), c.Cap)
+			}
+			before := evictions
+			if err := check(c.N, fmt.Sprintf("after the final Put of %d bytes", big.GetSizeInBytes())); err != nil {
+				return err
+			}
+			var small uint64
+			for i := evictions; i < c.N; i++ {
+				small += mk(c.Shape, i).GetSizeInBytes()
+			}
+			if bigSize+small > c.Cap {
+				return fmt.Errorf("after the final Put of %d bytes (%d entries had to go, %d went): retrievable bitmaps sum to %d bytes > capacity %d", big.GetSizeInBytes(), c.N-before, evictions-before, bigSize+small, c.Cap)
+			}
+			return nil
+		}
+		sz := mk(c.Shape, 0).GetSizeInBytes()
+		if sz+slack <= c.Cap {
+			if _, ok := cache.Get(uint64(1000 + c.N - 1)); !ok {
+				return fmt.Errorf("the entry stored last (%d bytes, capacity %d) is not retrievable", sz, c.Cap)
+			}
+		}
+		return nil
+	})
+	return evictions, err
+}
+
+func runTurn(t interface{ Fatalf(string, ...any) }, c *TurnCase) {
+	ev, err := turnOracle(c)
+	cl := []string{"turnover"}
+	if ev > 65536 {
+		cl = append(cl, "more-than-65536-evictions")
+	}
+	evid.Case(ev > 1000, c.Summary(), cl...)
+	if err != nil {
+		fix.Fail(t, prop, "turnover", c, c.Summary(), err)
+	}
+}
+
+func drawTurn(t *rapid.T) *TurnCase {
+	c := &TurnCase{N: rapid.SampledFrom([]int{3000, 66000, 70000, 131100}).Draw(t, "n"), Shape: rapid.SampledFrom([]int{ShEmpty, ShArray, ShArray, ShMulti}).Draw(t, "shape")}
+	c.Cap = rapid.SampledFrom([]uint64{0, 300, 700, 4096, 70000}).Draw(t, "cap")
+	c.Every = rapid.SampledFrom([]int{0, 0, 7, 1000}).Draw(t, "every")
+	if rapid.Bool().Draw(t, "avalanche") {
+		// everything fits until one entry of nearly the whole capacity arrives
+		c.N = rapid.SampledFrom([]int{1500, 3000, 5000}).Draw(t, "an")
+		c.Shape = ShArray
+		c.Cap = uint64(c.N) * 300
+		c.Every = 0
+		c.Big = int(c.Cap/8300) - rapid.IntRange(0, 2).Draw(t, "bigless")
+		if c.Big < 1 {
+			c.Big = 1
+		}
+	}
 	return c
 }
 
@@ -733,6 +897,14 @@ func runRePut(t interface{ Fatalf(string, ...any) }, c *RePutCase) {
 }
 
 func replay(cf *evid.CaseFile) error {
+	if cf.Sub == "turnover" {
+		var c TurnCase
+		if err := evid.Decode(cf.Gob, &c); err != nil {
+			return err
+		}
+		_, err := turnOracle(&c)
+		return err
+	}
 	if cf.Sub == "edit" {
 		var c MutCase
 		if err := evid.Decode(cf.Gob, &c); err != nil {
@@ -764,6 +936,7 @@ func TestQuick(t *testing.T) {
 	fix.Check(t, "random", 3000, func(rt *rapid.T) { run(rt, drawCase(rt), "random") })
 	fix.Check(t, "reput", 300, func(rt *rapid.T) { runRePut(rt, drawRePut(rt)) })
 	fix.Check(t, "edit", 400, func(rt *rapid.T) { runMut(rt, drawMut(rt)) })
+	fix.Check(t, "turnover", 10, func(rt *rapid.T) { runTurn(rt, drawTurn(rt)) })
 	fix.Check(t, "marathon", 6, func(rt *rapid.T) { run(rt, drawMarathon(rt, 1200), "marathon") })
 }
 
@@ -777,6 +950,7 @@ func TestThorough(t *testing.T) {
 	fix.Check(t, "random", 100000, func(rt *rapid.T) { run(rt, drawCase(rt), "random") })
 	fix.Check(t, "reput", 3000, func(rt *rapid.T) { runRePut(rt, drawRePut(rt)) })
 	fix.Check(t, "edit", 6000, func(rt *rapid.T) { runMut(rt, drawMut(rt)) })
+	fix.Check(t, "turnover", 12, func(rt *rapid.T) { runTurn(rt, drawTurn(rt)) })
 	fix.Check(t, "marathon", 12, func(rt *rapid.T) { run(rt, drawMarathon(rt, 2500), "marathon") })
 }
 
